@@ -270,6 +270,47 @@ func writeTree(top string, big *memFS) (skipped int) {
 	return skipped
 }
 
+// collector keeps, per signature, the report of the lowest case index, so that the replay files
+// do not depend on goroutine scheduling. flush hands them to ev.Run in signature order.
+type collector struct {
+	mu    sync.Mutex
+	first map[string]pending
+	count map[string]int
+}
+
+type pending struct {
+	idx                      int
+	what, observed, expected string
+	replay                   any
+}
+
+func newCollector() *collector {
+	return &collector{first: map[string]pending{}, count: map[string]int{}}
+}
+
+func (c *collector) add(idx int, sig, what string, replay any, observed, expected string) {
+	c.mu.Lock()
+	defer c.mu.Unlock()
+	c.count[sig]++
+	if p, ok := c.first[sig]; !ok || idx < p.idx {
+		c.first[sig] = pending{idx, what, observed, expected, replay}
+	}
+}
+
+func (c *collector) flush(r *ev.Run) {
+	sigs := make([]string, 0, len(c.first))
+	for s := range c.first {
+		sigs = append(sigs, s)
+	}
+	sort.Strings(sigs)
+	for _, s := range sigs {
+		p := c.first[s]
+		for k := 0; k < c.count[s]; k++ {
+			r.Report(s, p.what, p.replay, p.observed, p.expected)
+		}
+	}
+}
+
 // ---------------------------------------------------------------- Check
 
 func Check(r *ev.Run, replay string) {
@@ -400,7 +441,9 @@ var spellings = []spelling{
 		return "func f() {\n\tfrom " + quote(p) + " import c\n\treturn c\n}\nf()"
 	}},
 	{"try-import-quoted", func(p string) string { return "try(func() {\n\timport " + quote(p) + " as y\n})" }},
-	{"import-single-quoted", func(p string) string { return "import '" + strings.ReplaceAll(strings.ReplaceAll(p, "\\", "\\\\"), "'", "\\'") + "'" }},
+	{"import-single-quoted", func(p string) string {
+		return "import '" + strings.ReplaceAll(strings.ReplaceAll(p, "\\", "\\\\"), "'", "\\'") + "'"
+	}},
 	{"import-backtick", func(p string) string { return "import `" + p + "`" }},
 }
 
@@ -466,12 +509,12 @@ type caseA struct {
 
 var kindsA = []string{"fs-strict", "fs-naive", "local"}
 
-// judgeA applies the containment oracle to one result; report==nil only classifies.
-func judgeA(r *ev.Run, c caseA, src string, res result) (bad []string) {
+// judgeA applies the containment oracle to one result; col==nil only classifies.
+func judgeA(col *collector, idx int, c caseA, src string, res result) (bad []string) {
 	rep := func(sig, what, observed, expected string) {
 		bad = append(bad, sig)
-		if r != nil {
-			r.Report(sig, fmt.Sprintf("%s with %s importer: %s (path text %q, source %q)", c.Spelling, c.Importer, what, c.Path, ev.Clip(src, 120)), c, observed, expected)
+		if col != nil {
+			col.add(idx, sig, fmt.Sprintf("%s with %s importer: %s (path text %q, source %q)", c.Spelling, c.Importer, what, c.Path, ev.Clip(src, 120)), c, observed, expected)
 		}
 	}
 	if res.Panic != "" {
@@ -525,6 +568,8 @@ func partA(r *ev.Run, nA, nX int) {
 	total := len(texts) * nS * nK
 	var okImports int64
 	var mu sync.Mutex
+	col := newCollector()
+	defer col.flush(r)
 	ev.ParFor(total, func(i int) {
 		t := texts[i/(nS*nK)]
 		sp := spellings[(i/nK)%nS]
@@ -536,7 +581,7 @@ func partA(r *ev.Run, nA, nX int) {
 		if res.Class == "timeout" {
 			r.Cap("evaluation deadline hit in part A")
 		}
-		judgeA(r, c, src, res)
+		judgeA(col, i, c, src, res)
 		tk := append([]string{}, res.Ticks...)
 		sort.Strings(tk)
 		r.Outcome("A|" + kind + "|" + sp.Name + "|" + res.Class + "|" + strings.Join(tk, ","))
@@ -829,9 +874,9 @@ func genScript(seq []int) script {
 }
 
 type caseB struct {
-	Part     string `json:"part"`
-	Importer string `json:"importer"`
-	Seq      []int  `json:"seq"`
+	Part     string   `json:"part"`
+	Importer string   `json:"importer"`
+	Seq      []int    `json:"seq"`
 	Letters  []string `json:"letters,omitempty"`
 }
 
@@ -844,11 +889,11 @@ func seqNames(seq []int) []string {
 }
 
 // judgeB compares one evaluation with the model.
-func judgeB(r *ev.Run, c caseB, sc script, res result) (bad []string, tickKey string) {
+func judgeB(col *collector, idx int, c caseB, sc script, res result) (bad []string, tickKey string) {
 	rep := func(sig, what, observed, expected string) {
 		bad = append(bad, sig)
-		if r != nil {
-			r.Report(sig, fmt.Sprintf("%s importer, imports %v: %s", c.Importer, seqNames(c.Seq), what), c, observed, expected)
+		if col != nil {
+			col.add(idx, sig, fmt.Sprintf("%s importer, imports %v: %s", c.Importer, seqNames(c.Seq), what), c, observed, expected)
 		}
 	}
 	counts := map[string]int{}
@@ -964,17 +1009,19 @@ func partB(r *ev.Run, depth int) {
 	states := map[string]struct{}{}
 	var mu sync.Mutex
 	var probes int64
+	col := newCollector()
+	defer col.flush(r)
 	ev.ParFor(total, func(i int) {
 		seq := decodeSeq(i, nL)
 		sc := genScript(seq)
 		np := 0
-		for _, kind := range kindsB {
+		for ki, kind := range kindsB {
 			res := run(sc.Src, kind, e)
 			r.Eval(1)
 			if res.Class == "timeout" {
 				r.Cap("evaluation deadline hit in part B")
 			}
-			_, tk := judgeB(r, caseB{"B", kind, seq, seqNames(seq)}, sc, res)
+			_, tk := judgeB(col, i*len(kindsB)+ki, caseB{"B", kind, seq, seqNames(seq)}, sc, res)
 			r.Outcome("B|" + sc.Key + "|" + tk)
 			np += len(res.Obs)
 		}
@@ -1030,7 +1077,9 @@ func replayOne(r *ev.Run, file string) {
 		res := run(src, in.Importer, e)
 		r.Eval(1)
 		fmt.Printf("source:\n%s\nresult class=%s err=%q panic=%q\nticks=%v\nopens=%+v\n", src, res.Class, res.Err, res.Panic, res.Ticks, res.Opens)
-		bad := judgeA(r, caseA{"A", in.Importer, in.Spelling, in.Path}, src, res)
+		col := newCollector()
+		bad := judgeA(col, 0, caseA{"A", in.Importer, in.Spelling, in.Path}, src, res)
+		col.flush(r)
 		fmt.Printf("oracle: %v\n", bad)
 	case "B":
 		for _, l := range in.Seq {
@@ -1057,7 +1106,9 @@ func replayOne(r *ev.Run, file string) {
 			}
 			fmt.Printf("  obs %3d %-22s = %s%s\n", id, p.Expr, got[id], mark)
 		}
-		bad, _ := judgeB(r, caseB{"B", in.Importer, in.Seq, seqNames(in.Seq)}, sc, res)
+		col := newCollector()
+		bad, _ := judgeB(col, 0, caseB{"B", in.Importer, in.Seq, seqNames(in.Seq)}, sc, res)
+		col.flush(r)
 		fmt.Printf("oracle: %v\n", bad)
 	default:
 		r.EngineError("replay: unknown part " + in.Part)
